@@ -17,6 +17,14 @@ card executed it at most once.  Nothing else may be raised, no PCD block plus
 CRC exceeds FSC.  Transparency: when every run of consecutive faults is within
 the retry budget the library derives from FWI (min(int(1/FWT), 5)), no error
 may be raised at all.
+
+Activation response shapes: the card may announce its frame size in any
+legitimate form - Type 4A: ATS of TL only (defaults FSCI 2, FWI 4), TL + T0,
+T0 with any subset of TA(1)/TB(1)/TC(1), with or without historical bytes;
+Type 4B: SENSB_RES of 12 or 13 byte with any protocol type / FO bits and any
+ATTRIB answer (MBLI, higher layer response).  The card model takes its FSC and
+FWI from the bytes it actually sent (parsed here after ISO/IEC 14443-4 5.2 and
+14443-3 7.9.4, independent of tt4.py), not from what the reader assumed.
 """
 import itertools
 
@@ -48,8 +56,89 @@ def budget_of(fwi):
     return min(int(1 / fwt), 5)
 
 
-def cfg_strategy():
+# ---------------------------------------------- activation response shapes
+def build_ats(fsci, fwi, shape):
+    """shape {"t0": bool, "ta": int|None, "sfgi": int|None (TB(1) present
+    when not None), "tc": int|None, "hist": bytes} -> ATS with consistent TL"""
+    if not shape["t0"]:
+        return b"\x01"
+    ta, sfgi, tc_ = shape.get("ta"), shape.get("sfgi"), shape.get("tc")
+    t0 = fsci | (0x10 if ta is not None else 0) | \
+        (0x20 if sfgi is not None else 0) | (0x40 if tc_ is not None else 0)
+    body = bytes([t0])
+    if ta is not None:
+        body += bytes([ta])
+    if sfgi is not None:
+        body += bytes([(fwi << 4) | sfgi])
+    if tc_ is not None:
+        body += bytes([tc_])
+    body += bytes(shape.get("hist") or b"")
+    return bytes([len(body) + 1]) + body
+
+
+def parse_ats(ats):
+    """(FSCI, FWI) a card that sent this ATS lives by - ISO/IEC 14443-4
+    5.2.3 .. 5.2.5: without T0 FSCI = 2, without TB(1) FWI = 4"""
+    fsci, fwi = 2, 4
+    if ats[0] >= 2:
+        t0 = ats[1]
+        fsci = t0 & 0x0F
+        i = 2
+        if t0 & 0x10:
+            i += 1
+        if t0 & 0x20:
+            fwi = ats[i] >> 4
+    return fsci, fwi
+
+
+class ShapedT4Tag(isodep_card.T4Tag):
+    """T4Tag with a generated SENSB_RES (Type 4B): protocol type nibble, FO
+    bits, optional fourth protocol info byte"""
+    sensb_shape = None
+
+    def target(self, poll):
+        t = isodep_card.T4Tag.target(self, poll)
+        if self.tech == "B" and self.sensb_shape:
+            sh = self.sensb_shape
+            b = bytearray(t.sensb_res)
+            b[10] = (self.fsci << 4) | (sh.get("ptype", 1) & 0x0F)
+            b[11] = (self.fwi << 4) | (sh.get("adc_fo", 0) & 0x0F)
+            if sh.get("ext") is not None:
+                b.append(sh["ext"])
+            t.sensb_res = b
+        return t
+
+
+def shape_a():
+    opt = lambda s: st.one_of(st.none(), s)    # noqa: E731
+    full = st.fixed_dictionaries({
+        "t0": st.just(True),
+        "ta": opt(st.sampled_from([0x00, 0x80, 0x11, 0x77])),
+        "sfgi": opt(st.sampled_from([0, 0, 1, 8, 14])),
+        "tc": opt(st.sampled_from([0x00, 0x02, 0x01, 0x03])),
+        "hist": st.one_of(st.just(b""), st.binary(max_size=15))})
+    return st.integers(0, 9).flatmap(
+        lambda i: st.just({"t0": False}) if i == 0 else full)
+
+
+def shape_b():
     return st.fixed_dictionaries({
+        "attrib": st.sampled_from([b"\x00", b"\x10", b"\xF0",
+                                   b"\x00\x90\x00"]),
+        "ptype": st.sampled_from([1, 1, 3, 5, 7]),
+        "adc_fo": st.sampled_from([0, 1, 2, 3, 5]),
+        "ext": st.one_of(st.none(), st.sampled_from([0x00, 0x10, 0xE0]))})
+
+
+def cfg_strategy():
+    def shaped(d):
+        # the shape belongs to the technology drawn
+        cfg = {k: v for k, v in d.items() if k not in ("shape_a", "shape_b")}
+        cfg["shape"] = d["shape_a" if d["tech"] == "A" else "shape_b"]
+        return cfg
+    return st.fixed_dictionaries({
+        "shape_a": st.one_of(st.none(), shape_a()),
+        "shape_b": st.one_of(st.none(), shape_b()),
         "tech": st.sampled_from(["A", "B"]),
         "fsci": st.integers(0, 8),
         "fwi": st.one_of(st.integers(0, 9), st.integers(0, 14)),
@@ -57,7 +146,7 @@ def cfg_strategy():
                            st.sampled_from([1, 5, 13, 29])),
         "wtx": st.sampled_from([0, 0, 0, 1, 2]),
         "max_send": st.sampled_from([290, 290, 64, 40, 20]),
-        "max_recv": st.sampled_from([290, 290, 255, 64])})
+        "max_recv": st.sampled_from([290, 290, 255, 64])}).map(shaped)
 
 
 def apdu_strategy():
@@ -80,8 +169,25 @@ def case_strategy():
 def run(case, ctx):
     cfg = case["cfg"]
     app = isodep_card.T4App()
-    tag_sim = isodep_card.T4Tag(app, cfg["tech"], cfg["fsci"], cfg["fwi"],
-                                cfg.get("chunk"), cfg.get("wtx", 0))
+    fsci, fwi, shape = cfg["fsci"], cfg["fwi"], cfg.get("shape")
+    ats, attrib = None, b"\x00"
+    if shape is not None and cfg["tech"] == "A":
+        ats = build_ats(fsci, fwi, shape)
+        # the card lives by what it announced, whatever the reader made of it
+        fsci, fwi = parse_ats(ats)
+        ctx.label("ats=%s%s%s%s%s" % (
+            "T0" if shape["t0"] else "TL-only",
+            "+TA" if shape.get("ta") is not None else "",
+            "+TB" if shape.get("sfgi") is not None else "",
+            "+TC" if shape.get("tc") is not None else "",
+            "+hist" if shape.get("hist") else ""))
+    elif shape is not None:
+        attrib = shape["attrib"]
+        ctx.label("sensb=%d byte" % (12 if shape.get("ext") is None else 13))
+    tag_sim = ShapedT4Tag(app, cfg["tech"], fsci, fwi, cfg.get("chunk"),
+                          cfg.get("wtx", 0), ats=ats, attrib_res=attrib)
+    if shape is not None and cfg["tech"] == "B":
+        tag_sim.sensb_shape = shape
     try:
         clf, tag = tagdev.activate(tag_sim, max_send=cfg["max_send"],
                                    max_recv=cfg["max_recv"])
@@ -95,7 +201,7 @@ def run(case, ctx):
     for slot, kind in case["script"]:
         script.setdefault(base + 1 + slot, FAULTS[kind])
     dev.script = script
-    n_retry = budget_of(cfg["fwi"])
+    n_retry = budget_of(fwi)
     ctx.label("%s budget=%d" % (type(tag).__name__, n_retry))
     outcomes = []
     for idx, (clen, rlen) in enumerate(case["apdus"]):
@@ -112,6 +218,7 @@ def run(case, ctx):
         except Exception as e:
             _classify(ctx, dev, base, script, after_error)
             raise unexpected(e, "transceive-raises")
+        _frame_size(ctx, tag_sim, idx)
         execs = [(s, a) for s, a in app.execlog if s > before]
         mine = [s for s, a in execs if a == cmd]
         if len(execs) > 1 or len(mine) != len(execs):
@@ -149,17 +256,32 @@ def run(case, ctx):
                     "raised %r" % (idx, len(mine_faults), h["slots"], n_retry,
                                    err))
             outcomes.append("error:%d" % err.errno)
-    if tag_sim.picc is not None and tag_sim.picc.oversize:
-        raise Violation("block-exceeds-fsc", "%d blocks larger than FSC %d"
-                        % (tag_sim.picc.oversize, tag_sim.fsc))
+    _frame_size(ctx, tag_sim, len(case["apdus"]))
     hit = _classify(ctx, dev, base, script, False)
     if hit["slots"]:
         ctx.label("faults-hit=%d" % min(len(hit["slots"]), 5))
         if hit["chain"] or hit["rblock"] or hit["wtx"]:
             ctx.nontrivial()
+    if case.get("nt") == "chained":
+        # shapes leg: the announced frame size governed how an APDU was split
+        if any(b and b[0] & 0xF2 == 0x12 for b in tag_sim.picc.blocks):
+            ctx.nontrivial()
     ctx.label("errors" if any(o != "ok" for o in outcomes) else "all-ok")
     ctx.note({"outcomes": outcomes, "exchanges": dev.exchanges - base,
               "faults_hit": hit["slots"]})
+
+
+def _frame_size(ctx, tag_sim, idx):
+    """no block sent to the card (plus 2 byte EDC) exceeds the frame size the
+    card announced; a real card cannot buffer such a block and stays mute"""
+    picc = tag_sim.picc
+    if picc is not None and picc.oversize:
+        big = max(len(b) for b in picc.blocks)
+        ctx.set_class("frame-size")
+        raise Violation("block-exceeds-fsc",
+                        "up to apdu %d: %d block(s) larger than the card's "
+                        "frame size, largest %d byte + 2 EDC, FSC %d"
+                        % (idx, picc.oversize, big, picc.fsc))
 
 
 def _classify(ctx, dev, base, script, after_error, since=0):
@@ -228,6 +350,45 @@ def enum_scripts(tier, seed):
                            "script": [[s1, k1], [s2, k2]]}
 
 
+# every activation response shape x FSCI 0..8 ---------------------------------
+def enum_shapes(tier, seed):
+    quick = tier == "quick"
+    hists = (b"", b"\x80\x71") if quick else (b"", b"\x80", bytes(range(15)))
+    tas = (None, 0x80) if quick else (None, 0x00, 0x80, 0x77)
+    sfgis = (None, 0) if quick else (None, 0, 14)
+    tcs = (None, 0x02) if quick else (None, 0x00, 0x02, 0x03)
+    shapes = [("A", {"t0": False})]
+    for ta, sfgi, tc_, hist in itertools.product(tas, sfgis, tcs, hists):
+        shapes.append(("A", {"t0": True, "ta": ta, "sfgi": sfgi, "tc": tc_,
+                             "hist": hist}))
+    for attrib, ptype, adc_fo, ext in (
+            (b"\x00", 1, 0, None), (b"\x10", 1, 1, None),
+            (b"\xF0", 3, 2, 0x00), (b"\x00\x90\x00", 7, 3, 0xE0),
+            (b"\x00", 5, 5, 0x10), (b"\x00", 1, 1, 0x00)):
+        shapes.append(("B", {"attrib": attrib, "ptype": ptype,
+                             "adc_fo": adc_fo, "ext": ext}))
+    scripts = [[]] + [[[s, k]] for s in range(4) for k in ("LC", "LR", "CR")]
+    for tech, shape in shapes:
+        for fsci in range(9):
+            if tech == "A" and not shape["t0"] and fsci != 2:
+                continue        # TL only: there is no FSCI to announce
+            fwi = (4, 10, 11, 2)[fsci % 4]
+            for max_send in (290, 40):
+                cfg = {"tech": tech, "fsci": fsci, "fwi": fwi, "chunk": None,
+                       "wtx": 0, "max_send": max_send, "max_recv": 290,
+                       "shape": shape}
+                # lengths around multiples of the INF size the card announced
+                card_fsci = fsci
+                if tech == "A":
+                    card_fsci = parse_ats(build_ats(fsci, fwi, shape))[0]
+                m = FSC[card_fsci] - 3
+                apdus = [[max(4, m - 1), m], [m, m + 1], [m + 1, 1],
+                         [2 * m, 2 * m + 1], [2 * m + 1, 0]]
+                for script in scripts:
+                    yield {"cfg": cfg, "apdus": apdus, "script": script,
+                           "nt": "chained"}
+
+
 LEGS = [
     Leg("enum2", run=run, enum=enum_scripts, exhaustive=True,
         shards_quick=8, shards_thorough=16,
@@ -240,5 +401,23 @@ LEGS = [
         thorough=50000, shards_quick=4, shards_thorough=16, nt_floor=0.05,
         rule="generated configuration x 1-6 echo APDUs with lengths around "
              "multiples of FSC-3 x up to 8 faults anywhere in the first 120 "
-             "exchanges; non-trivial as above."),
+             "exchanges; non-trivial as above.  Half of the configurations "
+             "carry a generated activation response shape (ATS TL only / T0 "
+             "with any subset of TA, TB, TC and 0-15 historical bytes; "
+             "SENSB_RES 12/13 byte, protocol type and FO bits, ATTRIB answer "
+             "variants) and the card takes FSC/FWI from the bytes it sent."),
+    Leg("shapes", run=run, enum=enum_shapes, exhaustive=True,
+        shards_quick=8, shards_thorough=16,
+        rule="every activation response shape (Type 4A ATS: TL only, TL+T0, "
+             "T0 with every subset of TA(1)/TB(1)/TC(1), without / with "
+             "historical bytes; Type 4B: six SENSB_RES / ATTRIB answer "
+             "variants) x FSCI 0..8 x device frame limit 290 / 40 x five echo "
+             "APDUs with command lengths FSC-4 .. 2(FSC-3)+1 for the FSC the "
+             "card announced x no fault or one fault in {LC, LR, CR} at one "
+             "of the first 4 block exchanges; the card model derives FSC and "
+             "FWI from the ATS / SENSB_RES bytes it sent and stays mute on "
+             "larger blocks.  Same oracle as enum2 (exactly-once, complete "
+             "response, recoverable faults absorbed, no block + EDC larger "
+             "than the announced FSC); non-trivial = the reader had to chain "
+             "a command, so the frame size governed the split."),
 ]
